@@ -294,7 +294,9 @@ func genFailure(t *rapid.T, teku bool) any {
 		return rapid.SampledFrom([]any{"x", 1, []any{}, true}).Draw(t, "failureWrong")
 	}
 	m := map[string]any{}
-	idx := rapid.SampledFrom([]any{0, 1, "0", "1", 18446744073709551615.0, "18446744073709551616", -1, 1.5, nil, "x", 1e30}).Draw(t, "failureIndex")
+	idx := rapid.SampledFrom([]any{0, 1, "0", "1", 18446744073709551615.0, "18446744073709551616", -1, 1.5, nil, "x", 1e30,
+		2147483647, 2147483648, 4294967296, json.RawMessage("9223372036854775807"), json.RawMessage("9223372036854775808"),
+		json.RawMessage("18446744073709551615"), json.RawMessage("-9223372036854775808"), "9223372036854775807", "18446744073709551615", "-1"}).Draw(t, "failureIndex")
 	if rapid.IntRange(0, 5).Draw(t, "hasIndex") > 0 {
 		m["index"] = idx
 	}
@@ -321,7 +323,8 @@ func genErrText(t *rapid.T) []byte {
 	}
 	doc := map[string]any{}
 	if rapid.IntRange(0, 3).Draw(t, "hasCode") > 0 {
-		doc["code"] = rapid.SampledFrom([]any{400, "400", 500, nil, 1e30, -1, "x"}).Draw(t, "code")
+		doc["code"] = rapid.SampledFrom([]any{400, "400", 500, nil, 1e30, -1, "x", 2147483648, json.RawMessage("9223372036854775807"),
+			json.RawMessage("9223372036854775808"), json.RawMessage("18446744073709551615")}).Draw(t, "code")
 	}
 	if rapid.IntRange(0, 3).Draw(t, "hasMsg") > 0 {
 		doc["message"] = rapid.SampledFrom([]any{"some failures", "", nil, 5}).Draw(t, "docMessage")
